@@ -48,7 +48,13 @@ for mid, m in MUTANTS.items():
             if props and p not in props:
                 continue
             t = time.time()
-            r = sh(f"./check {p} {args.tier}", cwd=ROOT)
+            try:
+                r = sh(f"KV_WATCHDOG_S=600 ./check {p} {args.tier}", cwd=ROOT, timeout=700)
+            except subprocess.TimeoutExpired:
+                sh("pkill -9 -f 'kv[.]run'")
+                print(f"{mid:28s} {p} TIMEOUT", flush=True)
+                results.append((mid, p, "TIMEOUT"))
+                continue
             viol = [l for l in r.stdout.splitlines() if l.startswith("VIOLATION")]
             sigs = [l.strip() for l in r.stdout.splitlines() if l.strip().startswith("signature:")]
             status = "CAUGHT" if r.returncode == 1 and viol else ("HARNESS-ERR" if r.returncode == 2 else "MISSED")
